@@ -87,6 +87,7 @@ type c15 struct {
 	root    *testing.T
 	sqlDB   *sqldb.BaseDB
 	sqlUses int
+	nudges  int
 
 	// per case
 	reg    *invpkg.InvoiceRegistry
@@ -569,16 +570,43 @@ func (c *c15) overdue() []uint64 {
 	return out
 }
 
+func (c *c15) nudge() {
+	c.nudges++
+	pre := lntypes.Preimage(sha256.Sum256([]byte(fmt.Sprintf("nudge-%d-%d", c.n, c.nudges))))
+	inv := &invpkg.Invoice{
+		CreationDate: testTime,
+		Terms: invpkg.ContractTerm{
+			Value:           1,
+			Expiry:          24 * 365 * time.Hour,
+			PaymentPreimage: &pre,
+			Features:        c.features(""),
+		},
+	}
+	_, _ = c.reg.AddInvoice(context.Background(), inv, pre.Hash())
+}
+
 func (c *c15) doTick(o *c15op) {
 	c.now = c.now.Add(time.Duration(o.dt) * time.Second)
 	due := c.overdue()
 	c.clk.SetTime(c.now)
 	res := "ok"
-	deadline := time.Now().Add(10 * time.Second)
+	start := time.Now()
+	deadline := start.Add(10 * time.Second)
+	nextNudge := start.Add(30 * time.Millisecond)
 	for len(c.overdue()) > 0 {
 		if time.Now().After(deadline) {
 			res = "timeout"
 			break
+		}
+		if time.Now().After(nextNudge) {
+			// Test-clock artefact: the registry's event loop computes its
+			// release tick as Clock.Now() followed by Clock.TickAfter(), which
+			// is not atomic w.r.t. SetTime; when an invoice event makes the
+			// loop re-arm exactly while the clock is advanced, the tick is
+			// registered one period late. Any invoice event makes the loop
+			// re-arm with the current time: add an unrelated dummy invoice.
+			c.nudge()
+			nextNudge = time.Now().Add(30 * time.Millisecond)
 		}
 		time.Sleep(200 * time.Microsecond)
 	}
@@ -809,6 +837,23 @@ func (c *c15) genMppSet(iv *c15inv) []*c15op {
 			}
 		}
 		ops = append(ops, o)
+	}
+	if n >= 2 && c.chance(22) {
+		// the first shard times out, is re-sent under a fresh key so that the
+		// set can still complete, and is replayed under its original key at
+		// the end.
+		first := ops[0]
+		rest := append([]*c15op{}, ops[1:]...)
+		retry := *first
+		retry.key = c.newKey(iv)
+		rep := *first
+		ops = []*c15op{first, {kind: "tick", dt: []int{30, 31, 29}[c.pick(3)]}}
+		ops = append(ops, rest...)
+		ops = append(ops, &retry, &rep)
+		if iv.hodl {
+			ops = append(ops, &c15op{kind: "tick", dt: 30}, &c15op{kind: "settle", pre: iv.pre}, &rep)
+		}
+		return ops
 	}
 	if bad >= 0 && c.chance(50) {
 		// a correct retry of the perturbed shard under a fresh key
@@ -1128,6 +1173,18 @@ func (c *c15) genCase(tier string) {
 		}
 	}
 
+	if c.chance(55) {
+		// replay sweep: every htlc notified so far once more, unchanged
+		done := map[uint64]bool{}
+		for _, o := range seen {
+			if !done[o.key] {
+				done[o.key] = true
+				cp := *o
+				final = append(final, &cp)
+			}
+		}
+	}
+
 	// ---- run
 	idb, clk := c.makeDB()
 	notifier := newMockNotifier()
@@ -1208,9 +1265,9 @@ func TestVerifC15(t *testing.T) {
 	c := &c15{t: t, root: t, w: w, rng: rand.New(rand.NewSource(seed*7919 + 15)), store: store}
 	c.pf("FACT hold=%d sha256empty=%s", c15Hold, c15hx(func() []byte { s := sha256.Sum256(nil); return s[:] }()))
 
-	ncases := 1200
+	ncases := 2400
 	if tier == "thorough" {
-		ncases = 12000
+		ncases = 24000
 	}
 	if store == "sql" {
 		ncases /= 3
